@@ -18,8 +18,12 @@ const (
 // Step is one action of a client thread.
 type Step struct {
 	Cmd        *hapi.Cmd
-	SleepUntil int64 // virtual ns since start; 0 = none
+	SleepUntil int64  // virtual ns since start; 0 = none
+	Poke       string // harness action executed by the thread itself (e.g. "setstate")
+	PokeArg    int
 }
+
+func PokeStep(what string, arg int) Step { return Step{Poke: what, PokeArg: arg} }
 
 func C(c hapi.Cmd) Step { return Step{Cmd: &c} }
 func At(t int64) Step   { return Step{SleepUntil: t} }
@@ -139,6 +143,9 @@ func EngineScenario(spec *EngSpec, monitors []MonitorFactory, oracles []Oracle, 
 						if st.Cmd != nil {
 							send(clients[i], *st.Cmd)
 						}
+						if st.Poke != "" {
+							node.Poke(st.Poke, st.PokeArg)
+						}
 					}
 					done++
 				})
@@ -231,6 +238,49 @@ func interleaved(r *EngRun) bool {
 type keyID struct {
 	db  uint8
 	key [16]byte
+}
+
+// MonitorC10 checks, at every release of a shard mutex: while the db is not in leader state no LockId becomes
+// a holder unless the request came from the leader's log (from-aof flag).
+func MonitorC10(n hapi.Node, r *EngRun) {
+	snap := func() map[keyID]hapi.KeyState {
+		s := n.Poke("keystates").(*hapi.Snapshot)
+		m := map[keyID]hapi.KeyState{}
+		for _, k := range s.Keys {
+			m[keyID{k.DB, k.Key}] = k
+		}
+		return m
+	}
+	prev := snap()
+	n.OnShardUnlock(func(db uint8, shard int) {
+		cur := snap()
+		st := n.Poke("dbstatus", int(db)).(int)
+		if st != 1 {
+			for id, k := range cur {
+				if id.db != db {
+					continue
+				}
+				was := map[[16]byte]uint8{}
+				for _, h := range prev[id].Holds {
+					was[h.LockId] = h.Depth
+				}
+				queued := map[[16]byte]bool{}
+				for _, w := range prev[id].Waiters {
+					queued[w.LockId] = true
+				}
+				for _, h := range k.Holds {
+					if d, ok := was[h.LockId]; (!ok || h.Depth > d) && h.Flag&0x04 == 0 && len(r.Monitor) < 4 {
+						sig, how := "C10:non-leader-decided/request-in-flight-across-role-change", "by a client request"
+						if queued[h.LockId] {
+							sig, how = "C10:non-leader-decided/queued-request-granted-after-step-down", "out of the wait queue"
+						}
+						r.Monitor = append(r.Monitor, explore.Violation{Sig: sig, Msg: fmt.Sprintf("t=%dms: db %d is in state %d (not leader) and LockId %x became a holder of key %x (depth %d) %s, not from the leader's log (holders before: [%s])", vrt.Elapsed()/ms, db, st, h.LockId[15], id.key[15], h.Depth, how, holdsStr(prev[id]))})
+					}
+				}
+			}
+		}
+		prev = cur
+	})
 }
 
 // MonitorC01 checks, at every release of a shard mutex, the grant rule of C01 keyed by (db,key).
